@@ -220,6 +220,7 @@ func main() {
 	b := flag.Int("batch", 2, "batch size")
 	conc := flag.Int("concurrent", 1, "requests in flight per round")
 	modesFlag := flag.String("modes", "insertion,deletion", "modes")
+	burst := flag.Bool("burst", false, "concurrent rounds start all requests at the same instant and contain mostly valid batches, each preceded by one unsatisfiable request served alone")
 	slow := flag.Float64("slow", 0, "additionally send one request whose body upload pauses for this many seconds")
 	flag.Parse()
 	g := gen.New(*seed)
@@ -259,12 +260,35 @@ func main() {
 			reqs := make([]request, k)
 			for i := range reqs {
 				reqs[i] = genRequest(g, mode, *d, *b)
+				if *burst && i < k-2 {
+					// mostly valid batches: isolation failures show as a valid request answered with an error
+					for tries := 0; tries < 50 && reqs[i].class != "params:valid"; tries++ {
+						reqs[i] = genRequest(g, mode, *d, *b)
+					}
+				}
+			}
+			if *burst {
+				// a request that fails inside the prover, served alone before the burst
+				pre := genRequest(g, mode, *d, *b)
+				for tries := 0; tries < 200 && pre.class != "params:wrongpost" && pre.class != "params:corrupt"; tries++ {
+					pre = genRequest(g, mode, *d, *b)
+				}
+				st, body, err := do(client, url, pre)
+				res := classify(mode, ps, pre, st, body, err)
+				bump("class:" + pre.class)
+				emit(fmt.Sprintf("req\t%s\t%d\t%d\t%s\t%s", mode, *d, *b, pre.method, hex.EncodeToString(pre.body)), res)
+				if st != 0 {
+					tally = append(tally, fmt.Sprintf("%s:%d", pre.method, st))
+				}
 			}
 			results := make([]string, k)
 			statuses := make([]int, k)
 			offsets := make([]time.Duration, k)
 			for i := range offsets {
 				offsets[i] = time.Duration(g.Intn(30)) * time.Millisecond
+				if *burst {
+					offsets[i] = 0
+				}
 			}
 			var wg sync.WaitGroup
 			for i := range reqs {
